@@ -48,9 +48,10 @@ ASSUMPTIONS = [
 NO_SHRINK = False
 
 
-class _StubParams:
-    def __init__(self, rho):
-        self.rho = rho
+def _params(rho, precision="Double"):
+    from pygradflow.params import Params, Precision
+
+    return Params(rho=rho, precision=Precision[precision])
 
 
 class _StubIterate:
@@ -80,10 +81,12 @@ def key(p):
 class FilterChecker:
     """Drives one real filter and checks every operation against the history oracle."""
 
-    def __init__(self, rho0=1.0):
+    def __init__(self, rho0=1.0, precision="Double"):
         from pygradflow.penalty import ObjectivePenaltyFilter
 
-        self.filt = ObjectivePenaltyFilter(None, _StubParams(rho0))
+        # a real Params object; the filter's verdict must not depend on the working precision of the
+        # linear algebra (the pairs it is offered are Python floats)
+        self.filt = ObjectivePenaltyFilter(None, _params(rho0, precision))
         self.history = []
         self.rho = rho0
         self.refusals = 0
@@ -202,7 +205,7 @@ def check(case):
     if "spec" in case:
         return check_solver_level(case)
     ops = case["ops"]
-    chk = FilterChecker(case.get("rho0", 1.0))
+    chk = FilterChecker(case.get("rho0", 1.0), case.get("precision", "Double"))
     for k, op in enumerate(ops):
         try:
             bad = chk.apply(op)
@@ -232,10 +235,10 @@ def enumerate_cases(tier, shard, nshards):
                 continue
             pts = [grid[i] for i in seq]
             for via in ("insert", "update"):
-                yield {"grid": k, "ops": [[via, p[0], p[1]] for p in pts], "rho0": 1.0}
+                yield {"grid": k, "ops": [[via, p[0], p[1]] for p in pts], "rho0": 1.0, "precision": "Single" if (idx // nshards) % 4 == 0 else "Double"}
 
 
-SPECIAL = [0.0, -0.0, 1.0, -1.0, 1e-300, -1e-300, 1e300, -1e300, 5e-324, 2.0, 0.5]
+SPECIAL = [0.0, -0.0, 1.0, -1.0, 1e-300, -1e-300, 1e300, -1e300, 5e-324, 2.0, 0.5, 4e38, 5e38, 1e-46, 2e-46, 17.0140173, 17.0140172]
 VAL = st.one_of(
     st.sampled_from(SPECIAL),
     st.integers(-3, 3).map(float),
@@ -285,10 +288,11 @@ def machine(tier, sink, checkfn):
             self.bad = None
             self.solver_case = None
 
-        @initialize(rho0=st.sampled_from([1e-8, 1.0, 100.0]))
-        def init(self, rho0):
+        @initialize(rho0=st.sampled_from([1e-8, 1.0, 100.0]), precision=st.sampled_from(["Double", "Double", "Single"]))
+        def init(self, rho0, precision):
             self.rho0 = rho0
-            self.chk = FilterChecker(rho0)
+            self.precision = precision
+            self.chk = FilterChecker(rho0, precision)
 
         def _do(self, op):
             if self.bad is not None:
@@ -313,13 +317,16 @@ def machine(tier, sink, checkfn):
             if not self.chk or not self.chk.filt.entries:
                 return
             e = data.draw(st.sampled_from(list(self.chk.filt.entries)))
-            mode = data.draw(st.sampled_from(["same", "samefirst", "samesecond"]))
+            mode = data.draw(st.sampled_from(["same", "samefirst", "samesecond", "nearfirst", "nearsecond"]))
             other = data.draw(VAL)
-            pt = {"same": e, "samefirst": (e[0], other), "samesecond": (other, e[1])}[mode]
+            # near ties: closer than single-precision resolution, but distinct
+            eps = data.draw(st.sampled_from([-1e-10, 1e-10, -1e-13, 1e-13]))
+            pt = {"same": e, "samefirst": (e[0], other), "samesecond": (other, e[1]),
+                  "nearfirst": (e[0] * (1 + eps) if e[0] else eps, e[1]), "nearsecond": (e[0], e[1] * (1 + eps) if e[1] else eps)}[mode]
             self._do([data.draw(st.sampled_from(["insert", "update"])), pt[0], pt[1]])
 
         def teardown(self):
-            case = {"ops": self.ops, "rho0": self.rho0}
+            case = {"ops": self.ops, "rho0": self.rho0, "precision": getattr(self, "precision", "Double")}
             # the pure check function recomputes the verdict from the recorded operations
             sink(case, checkfn(case))
 
